@@ -70,6 +70,27 @@ static void boundaries(int32_t M, bool many) {
     for (uint32_t d = 0; d < 4; d++) { check_phase(0xFFFFFFFFu - d, M); check_phase(d, M); check_phase(0x80000000u + d, M); check_phase(0x7FFFFFFFu - d, M); }
 }
 
+// the same functions called with the message space written as a literal constant at the call site (what user code usually does):
+// anything the public header does for compile-time constants (macros, inline fast paths) is part of the interface
+static inline void judge_literal(uint32_t phase, int32_t M, int32_t r, Torus32 ap, Torus32 enc_r) {
+    bool ok = r >= 0 && r < M; const char *why = "out-of-range";
+    if (ok) { unsigned __int128 x = (unsigned __int128) phase * (uint32_t) M, tg = (unsigned __int128) (uint32_t) r << 32, md = (unsigned __int128) (uint32_t) M << 32, d = x >= tg ? x - tg : tg - x; if (d > md - d) d = md - d;
+              if (d > ((unsigned __int128) 1 << 31)) { ok = false; why = "not-nearest"; } else if (ap != enc_r) { ok = false; why = "approxPhase!=encode(modSwitch)"; } }
+    out.evaluations++;
+    if (!ok) { char key[80]; snprintf(key, sizeof key, "rounding:%s", why); out.viol(key, J().u("phase", phase).i("M", M).i("modSwitchFromTorus32", r).i("approxPhase", ap).s("why", why).s("call_site", "message space is a literal constant")); }
+}
+#define LITERAL_M(MM) do { for (size_t q = 0; q < phases.size(); q++) { uint32_t ph = phases[q]; int32_t r = modSwitchFromTorus32((Torus32) ph, MM); judge_literal(ph, MM, r, approxPhase((Torus32) ph, MM), r >= 0 && r < (MM) ? modSwitchToTorus32(r, MM) : 0); } out.cell("literal-M:" #MM, phases.size()); } while (0)
+static void literal_call_sites() {
+    std::vector<uint32_t> phases = {0u, 1u, 2u, 0xFFFFFFFFu, 0xFFFFFFFEu, 0x80000000u, 0x7FFFFFFFu, 0x80000001u, 0xC0000000u, 0x40000000u, 0xFFFF0000u, 0xFFFFFC00u, 0xFFF00000u};
+    for (int sh = 0; sh < 32; sh++) { phases.push_back(0u - (1u << sh)); phases.push_back((1u << sh) - 1u); phases.push_back(1u << sh); phases.push_back(0u - (1u << sh) - 1u); }
+    for (int i = 0; i < 20000; i++) phases.push_back(rng.u32());
+    for (int i = 0; i < 4000; i++) phases.push_back(0xFFFFFFFFu - (uint32_t) rng.below(1u << (8 + rng.below(23))));     // the top of the range, at every scale
+    VH_OP("literal-constant call sites");
+    LITERAL_M(2); LITERAL_M(4); LITERAL_M(8); LITERAL_M(16); LITERAL_M(32); LITERAL_M(64); LITERAL_M(128); LITERAL_M(256); LITERAL_M(512); LITERAL_M(1024); LITERAL_M(2048); LITERAL_M(4096);
+    LITERAL_M(8192); LITERAL_M(16384); LITERAL_M(32768); LITERAL_M(65536); LITERAL_M(1 << 20); LITERAL_M(1 << 24); LITERAL_M(1 << 30);
+    LITERAL_M(3); LITERAL_M(5); LITERAL_M(7); LITERAL_M(10); LITERAL_M(100); LITERAL_M(1000); LITERAL_M(12289); LITERAL_M(32767);
+}
+
 int main(int argc, char **argv) {
     Args args(argc, argv);
     out.open(args.s("out", "-"));
@@ -97,6 +118,7 @@ int main(int argc, char **argv) {
             out.cell(cell, hi - lo);
             if (shard == 0) { boundaries(M, true); check_roundtrip_mu(M); }
         }
+        if (shard == 0 || shard == 1) literal_call_sites();
         out.sample(J().s("mode", "phases").i("log2count", lg).raw("M", jarr(Ms)).u("phase_lo", lo << (32 - lg)).u("phase_hi", (hi << (32 - lg)) - 1).u("exact_ties_seen", n_ties));
     } else if (mode == "allM") {
         // every M in [2, 2^15]: boundary phases + all mu
